@@ -77,14 +77,24 @@ theorem PresW.replaceObj (key : Key) (nobj old : Obj) (oid : Nat) (b : Bool) : P
 theorem PresW.updateOne (sub : Str) (kv : Key × Obj) : PresW (updateOne sub kv) := by
   unfold MesonModel.Options.updateOne
   repeat (first | exact PresW.setOption _ _ _ | exact PresW.addProjectOption _ _ | exact PresW.replaceObj _ _ _ _ _ | pw_core)
+theorem PresW.unlinkChildren (ids : List Nat) : PresW (unlinkChildren ids) := by
+  unfold MesonModel.Options.unlinkChildren
+  apply PresW.modify
+  intro s hs
+  exact ⟨fun k i hk => by simpa using hs.1 k i hk, fun k1 k2 i h1 h2 => hs.2 k1 k2 i h1 h2⟩
+
 theorem PresW.updateProjectOptions (sub : Str) (objs : List (Key × Obj)) : PresW (updateProjectOptions sub objs) := by
   unfold MesonModel.Options.updateProjectOptions
   apply PresW.bind (PresW.forEach (PresW.updateOne sub) objs)
   intro _
-  apply PresW.modify
-  intro s hs
-  dsimp only
-  exact wf_filter (fun k => !((!objs.any fun p => p.fst == k) && s.isProjectOption k && k.sub == some sub)) _ hs
+  apply PresW.bind PresW.get
+  intro s0
+  apply PresW.bind
+  · apply PresW.modify
+    intro s hs
+    dsimp only
+    exact wf_filter (fun k => !((!objs.any fun p => p.fst == k) && s0.isProjectOption k && k.sub == some sub)) _ hs
+  · intro _; exact PresW.unlinkChildren _
 
 /-- every API call keeps the object table well formed -/
 theorem PresW.applyOp (op : Op) : PresW (applyOp op) := by
